@@ -559,6 +559,14 @@ def opaque_step_helpers(ctx: Ctx, f: FuncInfo) -> list[ast.Call]:
         tree_arg = any(isinstance(a, ast.Name) and a.id in f.params()[1:2] for a in c.args)
         if any(ctx.eff.has(t, "EVAL") for t in cs.targets) and (tree_arg or any(stop_calls_in(ctx, t, t.node, "gsc") for t in cs.targets)):
             out.append(c)
+    # a local function that evaluates, handed to a higher-order call (itertools.accumulate, map, reduce, ...): the evaluations
+    # happen lazily inside the iterator, wherever it is advanced
+    for nm, g in getattr(f, "nested", {}).items():
+        if not ctx.eff.has(g, "EVAL"):
+            continue
+        for c in body_walk(f.node):
+            if isinstance(c, ast.Call) and norm(c.func).split(".")[-1] in ("accumulate", "reduce", "map", "starmap", "iter", "partial", "filter", "takewhile", "dropwhile") and any(isinstance(a, ast.Name) and a.id == nm for a in list(c.args) + [k.value for k in c.keywords]):
+                out.append(c)
     return out
 
 
